@@ -129,4 +129,10 @@ def run(rep, tier):
     B.run_b(rep, sample, ["C13"], tier=tier)
     B.run_b(rep, morecells.three_space_cells(tier, seed) + morecells.stale_cache_cells(tier, seed), ["C13"], explore=True, tier=tier)
     B.run_b(rep, morecells.measure_cells(tier, seed)[::4] + morecells.povm_cells(tier, seed)[::6], ["C13"], explore=True, tier=tier)
+    from vf.rtc import histories
+    hc = histories.history_cells(tier, seed)
+    rep.bounds["api_histories"] = {"count": len(hc), "alphabet": 16, "what": "all sequences of <= 2 actions + 1/32 of the 3-action ones + 1/12 of a structural bracket family of 4-action ones (quick); all <= 3, 1/8 of the 4-action ones and the whole bracket family (thorough)"}
+    from vf.rtc import run as RUN2
+    res = RUN2.explore_outcomes(None, hc, max_branch=2, depth=(2 if tier == "quick" else 3))      # histories are not down-sampled further
+    RUN2.evaluate(rep, res, ["C13"])
     rep.assume("A-uid: uuids of distinct objects are distinct")
